@@ -1,8 +1,10 @@
 /-
 Reader-consistency monitor (C04, C14): W writers; writer w's n-th batch sets every one of its K
-documents and its internal key to the sequence number n, and makes exactly `n % 3` of its two
+documents and its internal key to the sequence number n, makes exactly `n % 3` of its two
 extra documents present (indexing those, deleting the others), so that the document count moves
-with every batch.  An observation made through one reader
+with every batch, and writes n into slot `n % 6` of a ring of six documents, so that every batch
+leaves a document that stays live for the next five batches (segments keep live documents and
+background merges really rewrite them).  An observation made through one reader
 lists, per writer, the sequence number seen in each of the writer's documents (0 = absent) and in
 its internal key, together with the number of batches of each writer that had been acknowledged
 when the read began.
@@ -17,14 +19,18 @@ structure Obs where
   count : Nat                   -- DocCount reported by the same reader
 deriving Repr
 
-/-- the state of writer `w`'s documents after its first `p` batches: every fixed document carries
-    `p`; extra document `j` carries `p` when `j < p % 3` and is absent otherwise -/
-def docsAfter (k p : Nat) : List Nat :=
-  List.replicate k p ++ [if 0 < p % 3 then p else 0, if 1 < p % 3 then p else 0]
+/-- ring slot `s` after `p` batches: the latest batch number `≤ p` congruent to `s` modulo 6 (0 = none yet) -/
+def ring (p s : Nat) : Nat := if p < s then 0 else p - (p - s) % 6
 
-/-- number of documents present after the prefix vector `ps` (a writer with no batch yet has none) -/
+/-- the state of writer `w`'s documents after its first `p` batches: every fixed document carries
+    `p`; extra document `j` carries `p` when `j < p % 3` and is absent otherwise; then the six ring slots -/
+def docsAfter (k p : Nat) : List Nat :=
+  List.replicate k p ++ [if 0 < p % 3 then p else 0, if 1 < p % 3 then p else 0] ++
+    (List.range 6).map (ring p)
+
+/-- number of documents present after the prefix vector `ps`: the documents that carry a sequence number -/
 def countAfter (ks ps : List Nat) : Nat :=
-  ((ks.zip ps).map (fun kp => if kp.2 = 0 then 0 else kp.1 + kp.2 % 3)).sum
+  ((ks.zip ps).map (fun kp => ((docsAfter kp.1 kp.2).filter (fun d => d != 0)).length)).sum
 
 /-- **Specification**: the observation is the index content after some prefix of every writer's
     batches (`ps`), no older than what had been acknowledged and than what this client saw before -/
